@@ -410,6 +410,7 @@ class IKRun:
                         "pre_theta": np.array(arm._theta, float).copy(),
                         "mins": np.array(arm.joint_mins, float).copy(), "maxs": np.array(arm.joint_maxs, float).copy(),
                         "pos_tol": float(arm.pos_tolerance), "rot_tol": float(arm.rot_tolerance)}
+                model0 = self._model_snapshot()
                 if op == "IK":
                     ret = arm.IK(goal, start, st.get("check", True), st.get("level", 6), st.get("max_iters", 30),
                                  st.get("protect", False))
@@ -420,6 +421,7 @@ class IKRun:
                         start = np.array(arm._theta, float).copy()
                         info["start"] = start.copy()
                     ret = arm.IKFree(goal, start, list(st["inds"]))
+                info["model_changed"] = self._model_diff(model0, self._model_snapshot())
             elif op == "FK":
                 arm.FK(np.array(st["theta"], float), bool(st.get("protect", False)))
             elif op == "move":
@@ -503,6 +505,10 @@ class IKRun:
             success = bool(success)
         except Exception:
             raise Violation("K-return", "%s returned %r instead of (theta, success)" % (op, ret), sig)
+        if info.get("model_changed"):
+            raise Violation("K-state", "%s changed the arm's %s: the model that forward kinematics, the limits and the tolerances are "
+                            "read from is not the one the caller configured any more" % (op, info["model_changed"]),
+                            dict(sig, model_changed=info["model_changed"]))
         n = arm.num_dof
         if theta.shape[0] != n or not np.all(np.isfinite(theta)):
             if success:
@@ -697,6 +703,22 @@ class IKRun:
                             {"op": st["op"], "path": "free" if st.get("protect") else ("ikfree" if st["op"] == "IKFree" else "constrained"),
                              "alias": True, "success": bool(success)})
         self.probes["returned_vector_edited_by_caller"] += 1
+
+    def _model_snapshot(self):
+        """What the oracle reads from the arm as ground truth (geometry, limits, tolerances): solving IK must not touch it."""
+        arm = self.arm
+        return {"screw list": np.array(arm.screw_list, float).copy(),
+                "home tool pose": np.array(arm._end_effector_home.gTM(), float).copy(),
+                "base pose": np.array(arm._base_pos_global.gTM(), float).copy(),
+                "joint minima": np.array(arm.joint_mins, float).copy(), "joint maxima": np.array(arm.joint_maxs, float).copy(),
+                "tolerances": np.array([float(arm.pos_tolerance), float(arm.rot_tolerance)])}
+
+    @staticmethod
+    def _model_diff(a, b):
+        for k in a:
+            if a[k].shape != b[k].shape or float(np.max(np.abs(a[k] - b[k]))) > 0.0:
+                return k
+        return None
 
     def _prismatic_wrapped(self, path):
         """Unconstrained path only: did the kernel return a prismatic joint beyond 2*pi of travel (which Arm.IK's
